@@ -570,6 +570,7 @@ class RulesMixin:
         self.traces.setdefault("calls", []).append((fc.qualname.split(":")[1],) + tuple(args))
         if getattr(self, "clock", None) is not None:
             self.traces.setdefault("call_times", []).append((fc.qualname.split(":")[1], self.clock))
+        self.unit_call_requires(fc.qualname.split(":")[1], fr)
         # exceptional alternatives
         alts = ["normal"]
         for exc_name, when in fc.raises.items():
@@ -666,6 +667,26 @@ class RulesMixin:
         if not isinstance(node, ast.AsyncFunctionDef):
             return False
         return any(isinstance(n, (ast.Await, ast.AsyncWith, ast.AsyncFor)) for n in ast.walk(node))
+
+    def unit_call_requires(self, name, fr):
+        """obligations the unit under verification attaches to every call of `name`
+        (model_opts['call_requires']); evaluated over the unit's local variables"""
+        ufc = self.reg.fns.get(getattr(self, "unit_qual", ""))
+        reqs = (ufc.model_opts.get("call_requires") or {}).get(name) if ufc is not None else None
+        if not reqs:
+            return
+        from .contracts import mk_clauses
+
+        unit = getattr(self, "unit_name", "?")
+        env = {}
+        f = fr
+        while f is not None:
+            for k, v in f.locals.items():
+                env.setdefault(k, v)
+            f = f.parent
+        for cl in mk_clauses(f"{name}.pre", reqs, ufc.props):
+            v = self.spec_eval_p(cl, env, None, getattr(self, "unit_module", None))
+            self.ctx.prove(f"{unit}.call.{cl.name}", self.as_z3_bool(v), cl.text, fr.where(), note=f"obligation attached to every call of {name}", props=cl.props)
 
     def havoc_modifies(self, fc: FnContract, env, fr):
         for target in fc.modifies or []:
@@ -1457,8 +1478,16 @@ class RulesMixin:
             finally:
                 self.loop_keeps_stable = False
                 self.loop_written = set()
+            if getattr(self, "clock", None) is not None:
+                # the iterations that already ran may have suspended: an unknown amount of time passed
+                from . import models_rt as _rt
+
+                _rt.advance(self, f"t@{label}")
             tr = self.traces
             for k in list(tr):
+                if k == "call_times":
+                    tr[k] = list(tr[k]) + [TraceGap(label)]  # times of earlier calls stay known
+                    continue
                 tr[k] = [TraceGap(label)]
             if self.unit_self is not None:
                 self.segment_start = self.snapshot_env({"self": self.unit_self})
@@ -1578,6 +1607,8 @@ class RulesMixin:
     def tail_len(self, tail):
         if isinstance(tail, SymSeq):
             return z3.Length(tail.e)
+        if hasattr(tail, "length") and hasattr(tail, "lst"):
+            return tail.length(self)
         if type(tail).__name__ == "ReversedIter":
             return tail.length()
         if hasattr(tail, "e") and hasattr(tail, "elem"):
